@@ -82,6 +82,7 @@ def simultaneous(v):
     else:
         parts = [m]
     have_inst = have_delta = False
+    kept_parts = []
     for part in parts:
         if part[0] != 'comp' or part[1] != 'dictcomp' or len(part[3]) != 1:
             return False, f'map component outside the subset: {show(part)}'
@@ -91,9 +92,19 @@ def simultaneous(v):
         if len(names) != 2 or elt[0] != 'pair' or elt[1] != ('bound', names[0]):
             return False, f'map component outside the subset: {show(part)}'
         if it == ('call', ('attr', ('attr', SELF, 'inst'), 'items'), (), ()):
+            disjoint = ('call', ('attr', ('call', ('attr', ('bound', names[1]), 'metavars'), (), ()), 'isdisjoint'), (DELTA,), ())
+            if elt[2] == ('bound', names[1]) and list(ifs) == [disjoint]:
+                # a stored plug none of whose metavariables is instantiated equals its instantiation: sharing it is the same map entry
+                kept_parts.append(part)
+                continue
             # stored plugs, each instantiated with delta
             if elt[2] != ('call', ('attr', ('bound', names[1]), 'instantiate'), (DELTA,), ()):
                 return False, f'stored plugs are carried over as {show(elt[2])} instead of being instantiated with delta'
+            # the instantiated part may leave out exactly the entries that were kept (or nothing)
+            for c in ifs:
+                complement = (c == ('not', disjoint)) or (c[0] == 'cmp' and c[1] == 'not in' and c[2] == ('bound', names[0]) and c[3] in kept_parts)
+                if not complement:
+                    return False, f'stored plugs are instantiated only under `{show(c)}`: the others are dropped from the map'
             have_inst = True
         elif it == ('call', ('attr', DELTA, 'items'), (), ()):
             if elt[2] != ('bound', names[1]):
